@@ -731,7 +731,21 @@ class Engine:
         for cls in classes:
             for inst in instances:
                 res.instances += 1
+                before = res.normal_paths
                 self._verify_instance(finfo, contract, cls, inst, res)
+                if getattr(contract.impl, "cover_instances", False) and not res.limits:
+                    # opt-in reachability obligation per instance: some path of this instance returns normally (a change
+                    # that makes a whole instance raise - e.g. through an exception the contract merely allows - must not
+                    # verify vacuously).  Goal True/False is decided by the exploration; the query keeps the entry
+                    # assumptions so that a failure is reported as `sat`.
+                    tag = ""
+                    if inst is not None:
+                        tag = "[" + ",".join("%s=%s" % kv for kv in sorted(inst.items())) + "]"
+                    if cls is not None and cls is not finfo.cls:
+                        tag = "<%s>" % cls.name + tag
+                    res.obligations.append(Obligation("%s%s/cover#returns-normally" % (short(contract.qualname), tag),
+                                                      [], z3.BoolVal(res.normal_paths > before), [],
+                                                      contract.qualname + tag, [], kind="cover"))
         return res
 
     def sliced_function(self, qualname: str, spec: dict) -> Optional[FuncInfo]:
@@ -935,6 +949,11 @@ class Engine:
                     args[p.arg] = V.ClassVal(cls)
                     continue
                 self_obj = self.materialise_self(ctx, cls, is_init)
+                for k, v in ((getattr(contract.impl, "body_slice", None) or {}).get("self_fields") or {}).items():
+                    # a statement slice: fields of self assigned by the dropped statements before it
+                    fv = ctx.fresh_kind("self." + k, v)
+                    self.assume_wellformed(ctx, fv)
+                    self_obj.fields[k] = fv
                 if inst is not None:
                     for k, v in inst.items():
                         if k.startswith("self."):
@@ -965,6 +984,9 @@ class Engine:
                 ctx.assume(lift_bool(inv))
         for label, c in self.run_spec(ctx, lambda: contract.clauses("pre", ns)):
             ctx.assume(lift_bool(c))
+        if getattr(contract, "definitions", None) is not None:
+            for label, c in self.run_spec(ctx, lambda: contract.clauses("definitions", ns)):
+                ctx.assume(lift_bool(c))  # defining equation of a ghost predicate (see Contract.definitions)
         if res is not None and res.entry_pc is None:
             res.entry_pc = list(ctx.pc)
             res.entry_axioms = list(ctx.axioms)
@@ -2258,6 +2280,12 @@ def split_goal(name, goal):
         out = []
         for k, c in enumerate(goal.children()):
             out.extend(split_goal("%s.%d" % (name, k) if goal.num_args() > 1 else name, c))
+        return out
+    if z3.is_not(goal) and z3.is_or(goal.arg(0)) and goal.arg(0).num_args() > 1:
+        # not (a or b ...): one goal per disjunct (e.g. "normal return implies none of the rejection reasons")
+        out = []
+        for k, c in enumerate(goal.arg(0).children()):
+            out.extend(split_goal("%s.%d" % (name, k), z3.Not(c)))
         return out
     if z3.is_eq(goal) and z3.is_array(goal.arg(0)) and goal.arg(0).sort().range() == z3.BoolSort():
         a, b = goal.arg(0), goal.arg(1)
